@@ -235,7 +235,7 @@ pub fn run(rep: &mut Report) {
         a.push(gp(XPhase, vec![0], (-2, 3)));
         a
     };
-    let fams: Vec<(&str, usize, Vec<Gate>, usize)> = if quick { vec![("K(2,3,A_full)", 2, alpha_full(2), 3), ("K(3,2,rich)", 3, rich(3), 2), ("K(4,1,rich)", 4, rich(4), 1)] } else { vec![("K(2,4,A_full)", 2, alpha_full(2), 4), ("K(3,3,rich)", 3, rich(3), 3), ("K(4,2,rich)", 4, rich(4), 2)] };
+    let fams: Vec<(&str, usize, Vec<Gate>, usize)> = if quick { vec![("K(2,3,A_full)", 2, alpha_full(2), 3), ("K(3,2,rich)", 3, rich(3), 2), ("K(4,1,rich)", 4, rich(4), 1), ("K(2,4,A_full)", 2, alpha_full(2), 4)] } else { vec![("K(2,4,A_full)", 2, alpha_full(2), 4), ("K(3,3,rich)", 3, rich(3), 3), ("K(4,2,rich)", 4, rich(4), 2)] };
     for (name, q, alpha, d) in fams {
         let t0 = Instant::now();
         let n = circuit_count(alpha.len(), d);
